@@ -7,7 +7,7 @@ Meshes3 == {"box", "boxsub", "voxL", "voxStairs", "ico", "torus", "two", "thin",
 Ops3 == {"DecimateSimple", "Decimator", "ElimCoplanar", "ElimCoplanarFiltered", "ElimEdgesShort", "ElimEdgesAll",
          "FlipDelaunay", "SubdivideEdges2", "SubdivideEdges3", "Loop", "Subdivider", "Blur05", "Blur0", "Blur1", "SmoothAreas",
          "MeshSmoother", "VoxelSmoother", "FlattenBase", "ARAP", "ARAPSeq", "SubdividerWild",
-         "BlurFiltered", "BlurNeg1", "ARAPAbs", "ARAPUniform"}
+         "BlurFiltered", "BlurNeg1", "ARAPAbs", "ARAPUniform", "ARAPMixed"}
 Meshes2 == {"rect", "rectsub", "pixelL", "pixelHole", "circle", "two", "circle200", "speck"}
 Ops2 == {"Decimate", "DecimateTo3", "DecimateTo1", "EliminateColinear", "EliminateColinearTol", "Subdivide", "Smooth", "SmoothSq", "Blur05", "Blur0", "Invert", "SubdividePath"}
 Cases == IF Dim = 3 THEN { [mesh |-> m, ops |-> o] : m \in Meshes3, o \in UNION { [1..n -> Ops3] : n \in 1..MaxLen } }
